@@ -6,6 +6,7 @@ import (
 	"net/url"
 	"os"
 	"path/filepath"
+	"sort"
 	"strconv"
 	"strings"
 )
@@ -596,24 +597,30 @@ func (rule *RuleAction) checkAction(meta *ActionMetadata, exec *ExecAction, desc
 		}
 	}
 
-	// Check mandatory inputs are specified
+	// Check mandatory inputs are specified. Missing inputs are reported in the order of their IDs
+	// since all the errors are reported at the same position.
+	missing := []string{}
 	for id, i := range meta.Inputs {
 		if i.Required {
 			if _, ok := exec.Inputs[id]; !ok {
-				ns := make([]string, 0, len(meta.Inputs))
-				for _, i := range meta.Inputs {
-					if i.Required {
-						ns = append(ns, i.Name)
-					}
-				}
-				rule.Errorf(
-					exec.Uses.Pos,
-					"missing input %q which is required by action %s. all required inputs are %s",
-					i.Name,
-					describe(meta),
-					sortedQuotes(ns),
-				)
+				missing = append(missing, id)
 			}
 		}
+	}
+	sort.Strings(missing)
+	for _, id := range missing {
+		ns := make([]string, 0, len(meta.Inputs))
+		for _, i := range meta.Inputs {
+			if i.Required {
+				ns = append(ns, i.Name)
+			}
+		}
+		rule.Errorf(
+			exec.Uses.Pos,
+			"missing input %q which is required by action %s. all required inputs are %s",
+			meta.Inputs[id].Name,
+			describe(meta),
+			sortedQuotes(ns),
+		)
 	}
 }
